@@ -4,7 +4,11 @@ id=$1; prop=$2; shift 2
 cd /repo || exit 2
 if ! git apply --check /verif/seeded/$id/patch.diff 2>/dev/null; then echo "PATCH $id does not apply to current /repo"; exit 3; fi
 git apply /verif/seeded/$id/patch.diff
+# evidence/replays written while a seed is applied must never replace the records of the unchanged tree
+rm -rf /tmp/verif_evidence_bak && cp -a /verif/evidence /tmp/verif_evidence_bak
 (cd /verif && ./check $prop "$@" 2>&1 | grep -E "^VIOLATION|^UNDECIDED|^$prop tier|KNOWN" | cut -c1-400)
 rc=${PIPESTATUS[0]}
 git checkout -- . 
+mkdir -p /verif/evidence_seeded && cp /verif/evidence/$prop.json /verif/evidence_seeded/${id}_$prop.json 2>/dev/null
+rm -rf /verif/evidence && mv /tmp/verif_evidence_bak /verif/evidence
 echo "seed=$id property=$prop reverted; git status: $(git status --short | grep -v '^??' | wc -l) modified files"
